@@ -13,9 +13,10 @@ package prefork
 //@   ghost started int = 0
 //@   ghost waited int = 0
 //@   ghost shut int = 0
+//@   ghost lastFailed bool = false
 //@   on call Prefork.doCommand -> cmd, e:
 //@     requires[previous-child-has-a-waiter] waited == started
-//@     effect started = started + (e == nil ? 1 : 0)
+//@     effect started = started + (e == nil ? 1 : 0); lastFailed = (e != nil)
 //@   on call value:startWait:
 //@     requires[waiter-for-the-child-just-started] waited == started - 1
 //@     effect waited = waited + 1
@@ -25,14 +26,20 @@ package prefork
 //@     requires[all-children-have-waiters] waited == started
 //@   on call Prefork.shutdownChildren:
 //@     effect shut = shut + 1
+//@   on call errors.Join(a, b) -> j:
+//@     nohavoc
+//@     ensures a != nil ==> j != nil
 //@   end
 //@   loop 2:
-//@     invariant[each-child-waited] waited == started && shut == 0
+//@     invariant[each-child-waited] waited == started && shut == 0 && !lastFailed
+//@     atend[failed-start-ends-prefork] !lastFailed
 //@   loop 3:
-//@     invariant[each-child-waited] waited == started && shut == 0
+//@     invariant[each-child-waited] waited == started && shut == 0 && !lastFailed
+//@     atend[failed-restart-ends-supervision] !lastFailed
 //@   ensures[every-child-has-a-waiter] waited == started
 //@   ensures[teardown-exactly-once] started > 0 ==> shut == 1
 //@   ensures[at-most-one-teardown] shut <= 1
+//@   ensures[spawn-failure-is-reported] lastFailed ==> err != nil
 
 // shutdownChildren: cancels the waiters' context first, kills only after the grace period expired (or at once on
 // Windows), and returns only after every child was reaped -- either wg.Wait returned here or the helper goroutine
